@@ -453,7 +453,7 @@ fn main() {
             (Spec::Count, c(97, 1, if q { 9 } else { 9409 }, 1)),
             (Spec::Sum { max: 2 }, c(9409, 1, 1, if q { 16 } else { 216 })),
             (Spec::SumVec { max: 1, len: 2, chunk: 2 }, c(9409, 97, 1, 1)),
-            (Spec::Histogram { len: 2, chunk: 2 }, c(9409, if q { 6 } else { 97 }, 1, 16)),
+            (Spec::Histogram { len: 2, chunk: 2 }, c(9409, if q { 6 } else { 97 }, 1, if q { 16 } else { 4 })),
         ];
         if !q {
             v.push((Spec::SumVec { max: 3, len: 3, chunk: 2 }, c(4096, 36, 1, 1))); // alphabet inputs {0,1,96,2}^6
